@@ -190,7 +190,7 @@ def validate_models(H, cfgs, L, report):
                 obs.append((outcome, [(l, to_py(v)) for l, v in ctx.observations]))
             n += 1
             (o1, a), (o2, b) = obs
-            if o2.startswith("violation:") and not o1.startswith("violation:"):
+            if o2.startswith("violation:") and (not o1.startswith("violation:") or getattr(H, "REAL_FIXTURE_VIOLATIONS", False)):
                 # the REAL code violates the property on this concrete fixture (the modelled run does not):
                 # a replay-confirmed violation in its own right
                 report.append(dict(label=o2[len("violation:"):], key="fixture: " + o2[len("violation:"):], cfg=cfg,
@@ -476,10 +476,12 @@ def main(argv=None):
         print("KNOWN-FINDING: property=%s %s [%s]" % (prop, h["what"], k))
     rc = 0
     if confirmed:
-        os.makedirs(REPLAY_DIR, exist_ok=True)
+        # runs that do not write evidence (seeded-change trials, self-tests) keep their replay files out of evidence/
+        rdir = os.path.join(VERIF, ".scratch", "replays") if args.no_evidence else REPLAY_DIR
+        os.makedirs(rdir, exist_ok=True)
         for v in confirmed:
             hid = hashlib.sha256((v["key"] + json.dumps(v["model"], sort_keys=True)).encode()).hexdigest()[:10]
-            path = os.path.join(REPLAY_DIR, "%s-%s.json" % (prop, hid))
+            path = os.path.join(rdir, "%s-%s.json" % (prop, hid))
             if not patches:
                 with open(path, "w") as f:
                     json.dump(v, f, indent=1, default=str)
